@@ -305,7 +305,8 @@ def refuse(net, connector, exc=None):
 def deliver(link, to_side, n):
     data = link.take(to_side, n)
     end = link.ends[to_side]
-    if data and end.protocol is not None and not end.transport.closed:
+    # Twisted's TCP transport stops reading as soon as loseConnection() has been called
+    if data and end.protocol is not None and not end.transport.closed and not end.transport.disconnecting:
         end.protocol.dataReceived(data)
     return data
 
